@@ -1,4 +1,5 @@
 import TapkeeVerif.Proofs.LeCompose
+import TapkeeVerif.Props.C04Compose
 /-!
 # Property C09 (composition) — Laplacian Eigenmaps and Diffusion Map end to end
 
@@ -136,4 +137,153 @@ theorem laplacian_eigenmaps_end_to_end (δ : Nat → Nat → K) {N : Nat} (hN : 
     intro κ hκ hsys hconst
     exact C09.le_solution _ _ _ _ hsys hd κ hκ hconst
 
+/-! ## Diffusion Map -/
+
+/-- everything `DiffusionMapImplementation::embed` computes on the way -/
+structure DmOut (N d : Nat) (K : Type) where
+  /-- `compute_diffusion_matrix` -/
+  T : Mat N N K
+  /-- the full ascending eigensystem of `T` the solver works with -/
+  Vf : Mat N N K
+  lam : Vec N K
+  /-- `decomposition_result`: the `d+1` pairs of the largest eigenvalues (ascending: the trivial pair is last) -/
+  V : Mat N (d + 1) K
+  lamV : Vec (d + 1) K
+  /-- the embedding -/
+  Y : Mat N d K
+
+/-- **`DiffusionMapImplementation::embed`, composed**: `compute_diffusion_matrix` → `eigendecomposition_via(Largest,
+    d+1)` → `col(c) *= λ_c^t`, `col(c) /= col(d)`. -/
+def dmEmbedModel (δ : Nat → Nat → K) (N d : Nat) (hd : d + 1 ≤ N) (width : K) (t : Nat) (heat sqrtO : K → K)
+    (solver : Mat N N K → Mat N N K × Vec N K) : DmOut N d K :=
+  let T := diffusionMatrix heat sqrtO (fun i j : Fin N => δ i.1 j.1) width
+  { T := T, Vf := (solver T).1, lam := (solver T).2,
+    V := cols (solver T).1 (topIdx hd), lamV := fun c => (solver T).2 (topIdx hd c),
+    Y := dmPost (cols (solver T).1 (topIdx hd)) (fun c => (solver T).2 (topIdx hd c)) t }
+
+/-- **diffusion_map_end_to_end.**  For every `N`, callback `δ`, width, `timesteps`, `d + 1 ≤ N`, every `exp` oracle,
+    every `sqrt` oracle that squares back to a non-zero value on the `q` of THIS kernel matrix, every solver outcome:
+    1. the matrix handed to the solver is `Q^{-1/2} (P⁻¹ K0 P⁻¹) Q^{-1/2}` of the mirrored heat kernel `K0` of `δ`,
+       it is symmetric, `√q` is an eigenvector for the eigenvalue `1`, and `Q⁻¹ K1` is row-stochastic;
+    2. `(Vf, lam) = solver T`, the returned pairs are the columns `N−d−1 … N−1`, `Y = dmPost`; and if `(Vf, lam)` meets
+       the solver contract on `T` (full orthonormal ascending eigensystem) with a simple top eigenvalue, then there is
+       `κ ≠ 0` such that the last returned column is `κ √q` with eigenvalue `1`, `Y i c = λ_c^t ψ_c(i) / κ` with
+       `ψ_c = V_c / √q` a right eigenvector of the diffusion operator for `λ_c`, the selected eigenvalues dominate all
+       unselected ones, and all eigenvalues are `≤ 1` (C09 `dm_solution`). -/
+theorem diffusion_map_end_to_end (δ : Nat → Nat → K) {N d : Nat} (hd : d + 1 ≤ N) (width : K) (t : Nat)
+    (heat sqrtO : K → K)
+    (hs : ∀ i, sqrtO (qVec heat (fun i j : Fin N => δ i.1 j.1) width i)
+        * sqrtO (qVec heat (fun i j : Fin N => δ i.1 j.1) width i) = qVec heat (fun i j : Fin N => δ i.1 j.1) width i)
+    (hs0 : ∀ i, sqrtO (qVec heat (fun i j : Fin N => δ i.1 j.1) width i) ≠ 0)
+    (solver : Mat N N K → Mat N N K × Vec N K) :
+    let dist : Mat N N K := fun i j => δ i.1 j.1
+    let o := dmEmbedModel δ N d hd width t heat sqrtO solver
+    -- 1. the matrix handed to the solver
+    (o.T = normBy (normBy (kernel0 heat dist width) (colSums (kernel0 heat dist width)))
+            (fun i => sqrtO (colSums (normBy (kernel0 heat dist width) (colSums (kernel0 heat dist width))) i)) ∧
+      (∀ i j, o.T i j = o.T j i) ∧
+      (Mat.toM o.T).mulVec (sVec heat sqrtO dist width) = sVec heat sqrtO dist width ∧
+      (∀ i, ∑ j, markov heat dist width i j = 1)) ∧
+    -- 2. the solver and the returned coordinates
+    ((o.Vf, o.lam) = solver o.T ∧ o.V = cols (Mat.toM o.Vf) (topIdx hd) ∧ (∀ c, o.lamV c = o.lam (topIdx hd c)) ∧
+      o.Y = dmPost o.V o.lamV t ∧
+      (GenEigSystem (Mat.toM o.T) 1 (Mat.toM o.Vf) o.lam → (∀ j : Fin N, j.1 ≠ N - 1 → o.lam j ≠ 1) →
+        ∃ κ : K, κ ≠ 0 ∧
+          (∀ i, o.V i (Fin.last d) = κ * sVec heat sqrtO dist width i) ∧ o.lamV (Fin.last d) = 1 ∧
+          (∀ (i : Fin N) (c : Fin d),
+            o.Y i c = o.lamV c.castSucc ^ t * (o.V i c.castSucc / sVec heat sqrtO dist width i) / κ) ∧
+          (∀ c : Fin d, (markov heat dist width).mulVec (fun i => o.V i c.castSucc / sVec heat sqrtO dist width i)
+              = o.lamV c.castSucc • (fun i => o.V i c.castSucc / sVec heat sqrtO dist width i)) ∧
+          (∀ j : Fin N, j.1 < N - (d + 1) → ∀ c, o.lam j ≤ o.lamV c) ∧
+          (∀ j : Fin N, o.lam j ≤ 1))) := by
+  intro dist o
+  refine ⟨⟨C09.diffusion_is_normalised_operator heat sqrtO dist width, C09.diffusionMatrix_symm heat sqrtO dist width,
+    C09.diffusion_top_eigenpair heat sqrtO dist width hs hs0, fun i => C09.diffusion_markov heat dist width i ?_⟩,
+    rfl, rfl, fun _ => rfl, rfl, ?_⟩
+  · intro hq
+    exact hs0 i (mul_self_eq_zero.1 ((hs i).trans hq))
+  · intro hsys hsimple
+    exact C09.dm_solution heat sqrtO dist width hs hs0 hd _ _ hsys hsimple t
+
+/-! ### Non-vacuity
+
+Laplacian Eigenmaps: (a) the four samples of `Props/C04Compose.lean` (`exδN`: two coinciding pairs), requested `k = 1`,
+`d = 2`, `heat x = 1/(1+3x²)`: one doubling, `k' = 2`, every outer hypothesis met; (b) two samples at distance 1,
+`k = 1`, `d = 1`: `h = heat(−1) = ¼`, `D = (½, ½)`, `L = ½ [[1,−1],[−1,1]]`, and the solver outcome `V = [[1,1],[1,−1]]`,
+`lam = (0, 2)` meets the solver contract with the constant first eigenvector (`κ = 1`).
+Diffusion Map: the two samples of C09's own example (`exHeat2`, `exSqrt2`, `exVf`), `d = 1`, `t = 3`. -/
+
+def exHeatLe : ℚ → ℚ := fun x => 1 / (1 + 3 * (x * x))
+theorem exHeatLe_pos : ∀ x, 0 < exHeatLe x := fun x => by
+  have := mul_self_nonneg x
+  unfold exHeatLe
+  exact div_pos one_pos (by linarith)
+
+def exLeSolver4 : Mat 4 4 ℚ → Vec 4 ℚ → Mat 4 4 ℚ × Vec 4 ℚ := fun _ _ => (fun _ _ => 0, fun _ => 0)
+
+/-- outer hypotheses met with one doubling -/
+example : ∃ o, leEmbedModel exδN 4 1 true 2 (by decide) 4 exHeatLe (bruteSearch exδN 4) exLeSolver4 = .ok o ∧
+    o.found.k = 2 ∧ o.found.tried = [1, 2] ∧ ∀ i, 0 < o.D i := by
+  obtain ⟨o, ho, -, -, ⟨hu, -, -, -, -, hD, -⟩, -⟩ :=
+    laplacian_eigenmaps_end_to_end exδN (N := 4) (by decide) (k := 1) (by decide) (by decide) (d := 2) (by decide) 4
+      exHeatLe exHeatLe_pos (bruteSearch exδN 4) (bruteSearch_length exδN 4)
+      (fun k hk => bruteSearch_exact (by decide) exδN_self k hk) exLeSolver4
+  have ho' := ho
+  unfold leEmbedModel at ho'
+  simp only [ex_find] at ho'
+  have hu4 : Uniform [[1, 2], [0, 2], [3, 0], [2, 0]] 4 2 := by decide
+  simp only [hu4, dite_true] at ho'
+  injection ho' with ho'
+  subst ho'
+  exact ⟨_, ho, rfl, rfl, hD⟩
+
+def exδ2 (a b : Nat) : ℚ := if a = b then 0 else 1
+def exLeSolver : Mat 2 2 ℚ → Vec 2 ℚ → Mat 2 2 ℚ × Vec 2 ℚ :=
+  fun _ _ => (fun i j => if i = 1 ∧ j = 1 then -1 else 1, fun j => if j = 0 then 0 else 2)
+
+theorem ex_find2 : findNeighbors (bruteSearch exδ2 2) 2 true (findFuel 2) 1 [] = .ok ⟨[[1], [0]], 1, [1]⟩ := by
+  have hb : bruteSearch exδ2 2 1 = [[1], [0]] := by
+    simp [bruteSearch, bruteKnn, bruteSelect, bruteLoop, popIfLonger, bruteRecords, exδ2, List.range, List.range.loop,
+      nthElementExec, recLt, List.mergeSort, List.MergeSort.Internal.splitInTwo]
+  have c : isConnected 2 [[1], [0]] = .ok true := by decide
+  simp [findNeighbors, findFuel, hb, c]
+
+theorem ex_uniform2 : Uniform [[1], [0]] 2 1 := by decide
+
+example : ∃ o, leEmbedModel exδ2 2 1 true 1 (by decide) 1 exHeatLe (bruteSearch exδ2 2) exLeSolver = .ok o ∧
+    (∀ i, o.D i = 1 / 2) ∧
+    GenEigSystem (Mat.toM o.L) (Matrix.diagonal o.D) (Mat.toM o.V) o.lam ∧ (∀ i, o.V i ⟨0, by decide⟩ = 1) := by
+  obtain ⟨o, ho, -⟩ :=
+    laplacian_eigenmaps_end_to_end exδ2 (N := 2) (by decide) (k := 1) (by decide) (by decide) (d := 1) (by decide) 1
+      exHeatLe exHeatLe_pos (bruteSearch exδ2 2) (bruteSearch_length exδ2 2)
+      (fun k hk => bruteSearch_exact (by decide) (fun i j _ _ => by unfold exδ2; simp only [if_true]; split_ifs <;> norm_num) k hk)
+      exLeSolver
+  have ho' := ho
+  unfold leEmbedModel at ho'
+  simp only [ex_find2, ex_uniform2, dite_true] at ho'
+  injection ho' with ho'
+  subst ho'
+  exact ⟨_, ho, by decide +kernel, ⟨by decide +kernel, by decide +kernel, by decide +kernel⟩, by decide +kernel⟩
+
+def exδDm (a b : Nat) : ℚ := (a : ℚ) + (b : ℚ) + 1
+def exDmSolver : Mat 2 2 ℚ → Mat 2 2 ℚ × Vec 2 ℚ := fun _ => (C09.exVf, ![119 / 144, 1])
+
+theorem exDm_sqrt : ∀ i : Fin 2, C09.exSqrt2 (qVec C09.exHeat2 (fun i j : Fin 2 => exδDm i.1 j.1) 1 i)
+    * C09.exSqrt2 (qVec C09.exHeat2 (fun i j : Fin 2 => exδDm i.1 j.1) 1 i)
+      = qVec C09.exHeat2 (fun i j : Fin 2 => exδDm i.1 j.1) 1 i := by decide +kernel
+
+theorem exDm_sqrt_ne : ∀ i : Fin 2, C09.exSqrt2 (qVec C09.exHeat2 (fun i j : Fin 2 => exδDm i.1 j.1) 1 i) ≠ 0 := by
+  decide +kernel
+
+example : ∃ κ : ℚ, κ ≠ 0 ∧
+    ∀ (i : Fin 2) (c : Fin 1),
+      (dmEmbedModel exδDm 2 1 (by decide) 1 3 C09.exHeat2 C09.exSqrt2 exDmSolver).Y i c
+        = (dmEmbedModel exδDm 2 1 (by decide) 1 3 C09.exHeat2 C09.exSqrt2 exDmSolver).lamV c.castSucc ^ 3
+          * ((dmEmbedModel exδDm 2 1 (by decide) 1 3 C09.exHeat2 C09.exSqrt2 exDmSolver).V i c.castSucc
+              / sVec C09.exHeat2 C09.exSqrt2 (fun i j : Fin 2 => exδDm i.1 j.1) 1 i) / κ := by
+  obtain ⟨κ, hκ, -, -, hY, -⟩ :=
+    (diffusion_map_end_to_end exδDm (N := 2) (d := 1) (by decide) 1 3 C09.exHeat2 C09.exSqrt2 exDm_sqrt exDm_sqrt_ne
+      exDmSolver).2.2.2.2.2
+      ⟨by decide +kernel, by decide +kernel, by decide +kernel⟩ (by decide +kernel)
+  exact ⟨κ, hκ, hY⟩
 end TapkeeVerif.LeCompose
